@@ -62,7 +62,7 @@ def cmd_seeded(args):
     if '--tier' in args:
         tier = args[args.index('--tier') + 1]
     names = [a for a in args if not a.startswith('--') and a not in ('quick', 'thorough')]
-    sd = os.path.join(V, 'seeded')
+    sd = os.path.join(V, 'mutants' if '--own' in args else 'seeded')
     names = names or sorted(n for n in os.listdir(sd) if os.path.isdir(os.path.join(sd, n)))
     respath = os.path.join(sd, 'RESULTS.json')
     results = json.load(open(respath)) if os.path.exists(respath) else {}
